@@ -45,6 +45,7 @@ type Contract struct {
 	Loops      map[int]*LoopSpec
 	Inline     bool
 	Trusted    bool
+	Pure       bool // interface method / external: the result depends only on receiver identity and arguments
 	NoBody     bool // interface method or external: contract only
 	External   bool // contract of a function outside the module (assumed, never verified)
 	File       string
@@ -86,7 +87,7 @@ type ContractFile struct {
 }
 
 var clauseKeywords = map[string]bool{"requires": true, "ensures": true, "claims": true, "modifies": true, "panics_when": true, "loop": true,
-	"inline": true, "trusted": true, "nobody": true, "var": true, "assume": true, "prove": true, "props": true, "apply": true, "reveal": true, "unroll_calls": true, "bounded": true, "split": true, "pure_param": true, "impl": true}
+	"inline": true, "trusted": true, "nobody": true, "var": true, "assume": true, "prove": true, "props": true, "apply": true, "reveal": true, "unroll_calls": true, "bounded": true, "split": true, "pure_param": true, "impl": true, "pure": true}
 
 func parseContractFile(path, pkgPath string) (*ContractFile, error) {
 	data, err := os.ReadFile(path)
@@ -336,6 +337,10 @@ func parseContractFile(path, pkgPath string) (*ContractFile, error) {
 			curSlot = nil
 		case "nobody":
 			cur.NoBody = true
+			curSlot = nil
+		case "pure":
+			// the (scalar) result is a function of the receiver and the arguments only
+			cur.Pure = true
 			curSlot = nil
 		case "props":
 			cur.Props = append(cur.Props, fields[1:]...)
